@@ -1,5 +1,8 @@
 """C14 cases: float <-> integer casts (floats as bit patterns)."""
 from .common import *
+from . import widthsweep as _ws
+
+HARNESS_BINS_THOROUGH = ["widths"]
 import struct
 
 FMT = {"f32": (24, 8, 32), "f64": (53, 11, 64)}
@@ -87,7 +90,7 @@ def exponent_sweep(rng, fmt, W):
             yield (sign << (bits - 1)) | (e << mb) | m
 
 
-def gen(rng, tier):
+def _gen_main(rng, tier):
     for cfg in ["8x1", "16x1", "64x2", "8x17"] + (["32x3", "64x16"] if tier == "thorough" else []):
         w, n = wn(cfg)
         for s in "ui":
@@ -105,3 +108,13 @@ def gen(rng, tier):
                     yield f"to_{fmt} {s}{cfg} {hx(a)}", t
                     t, f = float_case(rng, fmt, W)
                     yield f"from_{fmt} {s}{cfg} {hx(f)}", t
+
+
+def ROUTE(line):
+    return _ws.route(line, "c14")
+
+
+def gen(rng, tier):
+    yield from _gen_main(rng, tier)
+    if tier == "thorough":
+        yield from _ws.to_f64(rng)
